@@ -16,6 +16,9 @@ STR_METHODS = {'isascii', 'find', 'count', 'split', 'join', 'format', 'isalpha',
                'capitalize', 'startswith', 'endswith', 'lower', 'upper', 'strip', 'replace', 'index', 'isupper'}
 
 
+_REC_FUNS = {}
+
+
 class IterVal:
     pass
 
@@ -1148,7 +1151,7 @@ class CallsMixin:
 
     def call_rec_spec(self, c, args, node):
         """Recursive spec function: a z3 recursive definition; heap-independent (arguments only)."""
-        cache = self.eng.__dict__.setdefault('rec_funs', {})
+        cache = _REC_FUNS        # the z3 context is process-global, so is the table of recursive definitions
         ret_ann = ast.unparse(c.node.returns) if c.node.returns else 'any'
         if c.name not in cache:
             sorts_ = [self.spec_sort(p[1]) for p in c.params] + [self.spec_sort(ret_ann)]
